@@ -8,6 +8,7 @@
 //!
 //! push: dryoc's `push` on an all-zero message of `mlen` bytes.                      answer ok / err / panic
 //!       (libsodium column: whether `mlen` is within libsodium's `messagebytes_max()`; libsodium is not run)
+//! pullforged: an all-zero (forged) ciphertext of `mlen + 17` bytes is pulled by both libraries.   answer err (never ok, never panic)
 //! pull: libsodium pushes the message (an honest sender), dryoc's `pull` opens it.    answer ok / err / panic
 use crate::Ans;
 use dryoc::classic::crypto_secretstream_xchacha20poly1305::*;
@@ -79,7 +80,55 @@ fn outcome<T>(r: std::thread::Result<Result<T, dryoc::Error>>) -> String {
     }
 }
 
+/// `poly1305_huge <len>`: the one-time authenticator of a `len`-byte input (an aliased buffer holding a byte pattern), one-shot and
+/// through the streaming state with a 5-byte first piece, against libsodium's over the same bytes
+fn poly1305_huge(len: usize) -> Option<Ans> {
+    use dryoc::classic::crypto_onetimeauth::*;
+    if (len as u128) > (1u128 << 36) {
+        return Some(("n/a".into(), "n/a".into()));
+    }
+    let mut m = match Alias::new(len) {
+        Some(m) => m,
+        None => return Some(("n/a mmap".into(), "n/a".into())),
+    };
+    {
+        let s = m.slice();
+        let n = s.len().min(WIN + 8192);
+        for (i, b) in s[..n].iter_mut().enumerate() {
+            *b = (i as u32).wrapping_mul(2654435761).to_le_bytes()[3];
+        }
+        let l = s.len();
+        for (i, b) in s[l.saturating_sub(8192)..].iter_mut().enumerate() {
+            *b = (i as u8) ^ 0x3c;
+        }
+    }
+    let key = [0x42u8; 32];
+    let ms = m.slice() as *mut [u8];
+    let r = catch_unwind(AssertUnwindSafe(|| unsafe {
+        let mut mac = [0u8; 16];
+        crypto_onetimeauth(&mut mac, &*ms, &key);
+        let mut st = crypto_onetimeauth_init(&key);
+        let cut = 5.min((&*ms).len());
+        crypto_onetimeauth_update(&mut st, &(&*ms)[..cut]);
+        crypto_onetimeauth_update(&mut st, &(&*ms)[cut..]);
+        let mut mac2 = [0u8; 16];
+        crypto_onetimeauth_final(st, &mut mac2);
+        (mac, mac2)
+    }));
+    let mut smac = [0u8; 16];
+    unsafe { so::crypto_onetimeauth(smac.as_mut_ptr(), m.base, len as u64, key.as_ptr()) };
+    let hexs = |b: &[u8]| b.iter().map(|x| format!("{:02x}", x)).collect::<String>();
+    let ia = match r {
+        Ok((a, b)) => if a == b { format!("ok {}", hexs(&a)) } else { format!("mismatch one-shot {} streaming {}", hexs(&a), hexs(&b)) },
+        Err(_) => "panic".into(),
+    };
+    Some((ia, format!("ok {}", hexs(&smac))))
+}
+
 pub fn dispatch(op: &str, a: &[&str]) -> Option<Ans> {
+    if op == "poly1305_huge" {
+        return poly1305_huge(a[0].parse().ok()?);
+    }
     if op != "stream_huge" {
         return None;
     }
@@ -121,6 +170,22 @@ pub fn dispatch(op: &str, a: &[&str]) -> Option<Ans> {
             let (ms, cs) = (m.slice() as *mut [u8], c.slice() as *mut [u8]);
             let r = catch_unwind(AssertUnwindSafe(|| unsafe { crypto_secretstream_xchacha20poly1305_pull(&mut st, &mut *ms, &mut tag, &*cs, None) }));
             Some((outcome(r), "ok".into()))
+        }
+        "pullforged" => {
+            // a forged ciphertext of that size (all zero bytes): both libraries must answer with an error, not a panic
+            let mut st = State::new();
+            let hdr = [7u8; 24];
+            crypto_secretstream_xchacha20poly1305_init_pull(&mut st, &hdr, &key);
+            let mut tag = 0xEEu8;
+            let (ms, cs) = (m.slice() as *mut [u8], c.slice() as *mut [u8]);
+            let r = catch_unwind(AssertUnwindSafe(|| unsafe { crypto_secretstream_xchacha20poly1305_pull(&mut st, &mut *ms, &mut tag, &*cs, None) }));
+            let mut ss: so::crypto_secretstream_xchacha20poly1305_state = unsafe { std::mem::zeroed() };
+            let mut t2 = 0u8;
+            let rc = unsafe {
+                so::crypto_secretstream_xchacha20poly1305_init_pull(&mut ss, hdr.as_ptr(), key.as_ptr());
+                so::crypto_secretstream_xchacha20poly1305_pull(&mut ss, m.base, std::ptr::null_mut(), &mut t2, c.base, (mlen + 17) as u64, std::ptr::null(), 0)
+            };
+            Some((outcome(r), if rc == 0 { "ok".into() } else { "err".into() }))
         }
         _ => Some(("bad-op".into(), "bad-op".into())),
     }
